@@ -11,8 +11,10 @@ Model of the assembly logic of `src/single_layer.py` (`MP_SL_matrix_col`,
 * cache         — a directory is a map file name ↦ {absent, valid payload, corrupt}; `np.load` succeeds only on
                   a valid file, `np.save` is best effort (may write nothing or leave a partial file); events
                   `call`, `crash`, `truncate`, `remove`, `garble`; `run` executes a history;
-* keys          — the text that is hashed: `str(gamma) + str(elems_test) + str(elems_trial)` with Python's
-                  list rendering `[r₁, r₂, …]` over an abstract element `repr`.
+* keys          — the text that is hashed: `str(gamma) + str(elems_test) + str(elems_trial) +
+                  str((self.quad_order, self.pw_exact))` with Python's list rendering `[r₁, r₂, …]` over an abstract
+                  element `repr` and the tuple rendering `(12, False)` (`cfgText`); the text hashed before the repair of
+                  finding F7 (no configuration suffix) is kept as `keyTextUnfixed` / `slKeyUnfixed` / `slSpecUnfixed`.
 
 No Mathlib import.
 -/
@@ -289,14 +291,30 @@ def listStr (repr : E → List Char) : List E → List Char
   | [] => ['[', ']']
   | e :: es => '[' :: (repr e ++ listTail repr es)
 
-/-- `str(self.mesh.gamma_space) + str(elems_test) + str(elems_trial)` -/
-def keyText (repr : E → List Char) (curve : List Char) (tests trials : List E) : List Char :=
-  curve ++ (listStr repr tests ++ listStr repr trials)
+/-- Python's `str((quad_order, pw_exact))` for an `int ≥ 0` and a `bool`: `(12, False)` -/
+def cfgText (quadOrder : Nat) (pwExact : Bool) : List Char :=
+  '(' :: (Nat.toDigits 10 quadOrder ++
+    ',' :: ' ' :: ((if pwExact then ['T', 'r', 'u', 'e'] else ['F', 'a', 'l', 's', 'e']) ++ [')']))
+
+/-- `str(self.mesh.gamma_space) + str(elems_test) + str(elems_trial) + str((self.quad_order, self.pw_exact))`;
+`cfg` is the text of the last summand -/
+def keyText (repr : E → List Char) (curve : List Char) (tests trials : List E) (cfg : List Char) :
+    List Char :=
+  curve ++ (listStr repr tests ++ (listStr repr trials ++ cfg))
 
 /-- the file name `SL_{curve}_{N}x{M}_{md5}.npy` as the tuple of its variable parts -/
 def slKey {Hh : Type} (hash : List Char → Hh) (repr : E → List Char) (curve : List Char)
+    (tests trials : List E) (cfg : List Char) : List Char × Nat × Nat × Hh :=
+  (curve, tests.length, trials.length, hash (keyText repr curve tests trials cfg))
+
+/-- the hashed text BEFORE the repair of finding F7: `str(gamma) + str(elems_test) + str(elems_trial)` -/
+def keyTextUnfixed (repr : E → List Char) (curve : List Char) (tests trials : List E) : List Char :=
+  curve ++ (listStr repr tests ++ listStr repr trials)
+
+/-- the file name before the repair of finding F7 -/
+def slKeyUnfixed {Hh : Type} (hash : List Char → Hh) (repr : E → List Char) (curve : List Char)
     (tests trials : List E) : List Char × Nat × Nat × Hh :=
-  (curve, tests.length, trials.length, hash (keyText repr curve tests trials))
+  (curve, tests.length, trials.length, hash (keyTextUnfixed repr curve tests trials))
 
 /-- `str(self.bdr_mesh.gamma_space) + str(elems)` -/
 def vecKeyText (repr : E → List Char) (curve : List Char) (elems : List E) : List Char :=
@@ -314,15 +332,24 @@ section routines
 variable {E V C Hh : Type} [Zero V]
 
 /-- operators that may share one cache directory: configuration `c : C` (curve, `pw_exact`,
-`quad_order`, …) determines the curve name and the leaf -/
+`quad_order`, …) determines the curve name, the configuration text `str((quad_order, pw_exact))` that
+enters the hashed text, and the leaf -/
 structure Family (C E V : Type) where
   curve : C → List Char
+  cfg : C → List Char
   leaf : C → Leaf E V
 
 /-- `SingleLayerOperator.bilform_matrix` with `cache_dir` set; inputs (configuration, tests, trials) -/
 def slSpec (F : Family C E V) (hash : List Char → Hh) (repr : E → List Char) :
     Spec (List Char × Nat × Nat × Hh) (C × List E × List E) How (Mat V) where
-  key := fun i => slKey hash repr (F.curve i.1) i.2.1 i.2.2
+  key := fun i => slKey hash repr (F.curve i.1) i.2.1 i.2.2 (F.cfg i.1)
+  cached := fun i => !(decide (i.2.1.length * i.2.2.length < 100))
+  compute := fun i h => computeMatrix (F.leaf i.1) i.2.1 i.2.2 h
+
+/-- `bilform_matrix` BEFORE the repair of finding F7: the file name ignores `F.cfg` -/
+def slSpecUnfixed (F : Family C E V) (hash : List Char → Hh) (repr : E → List Char) :
+    Spec (List Char × Nat × Nat × Hh) (C × List E × List E) How (Mat V) where
+  key := fun i => slKeyUnfixed hash repr (F.curve i.1) i.2.1 i.2.2
   cached := fun i => !(decide (i.2.1.length * i.2.2.length < 100))
   compute := fun i h => computeMatrix (F.leaf i.1) i.2.1 i.2.2 h
 
